@@ -13,6 +13,11 @@ pub fn run_program(p: &J, dbset: &J, conns: &[rusqlite::Connection], target: &st
     let src = render::program(p, &dbset["schema"]);
     let id = p["id"].as_str().unwrap_or("?").to_string();
     emit(out, &json!({"event":"Reset","id":id}));
+    if let Some(ds) = p["decls"].as_array() {
+        for d in ds {
+            emit(out, &json!({"event":"Decl","d":d}));
+        }
+    }
     if let Some(steps) = p["steps"].as_array() {
         for s in steps {
             emit(out, &json!({"event":"Step","s":s}));
